@@ -63,7 +63,7 @@ def parts(ck):
         enum("h_c14s16p", ["--nw=1", "--budget=2", "--pre=two"], "r16-1w-b2", 20, 600)
         enum("h_c14s16p", ["--nw=2", "--budget=1", "--pre=none", "--maxlen=18", "--lfeach=0", "--longlf=2"], "r16-2w-b1", 100, 600)
         enum("h_c14", ["--nw=1", "--budget=2"], "r4096-1w-b2", 10, 600)
-        enum("h_c14p", ["--nw=2", "--budget=1"], "r4096-2w-b1", 50, 600)
+        enum("h_c14p", ["--nw=2", "--budget=1", "--kinds=1"], "r4096-2w-b1", 50, 600)
         explore("h_c14s8p", ["--nw=1"], "x-r8-1w", 2, 400)
         explore("h_c14s8", ["--nw=1"], "x-r8-1w-asan", 1, 300)
     import os
